@@ -3,6 +3,7 @@ from __future__ import annotations
 from typing import TypeVar, Type, Any
 
 from .avp import Avp, AvpGrouped
+from .avp.errors import AvpDecodeError
 from .avp.generator import AvpGenType, generate_avps_from_defs
 from .packer import Packer, Unpacker
 
@@ -453,11 +454,19 @@ class UndefinedMessage(Message):
                             avps: list[Avp]):
         for avp in avps:
             attr_name = self._produce_attr_name(avp)
-            if not isinstance(avp, AvpGrouped):
-                value = avp.value
+            # like for commands with a python implementation, an AVP whose
+            # value cannot be decoded becomes `None` instead of making the
+            # whole message undecodable
+            try:
+                avp_value = avp.value
+            except AvpDecodeError:
+                value = None
             else:
-                value = UndefinedGroupedAvp()
-                self._assign_attr_values(value, avp.value)
+                if not isinstance(avp, AvpGrouped):
+                    value = avp_value
+                else:
+                    value = UndefinedGroupedAvp()
+                    self._assign_attr_values(value, avp_value)
 
             if hasattr(parent, attr_name):
                 existing_attr = getattr(parent, attr_name)
